@@ -187,8 +187,8 @@ func pruneGenCache(dir string, keep int) {
 
 func (bc *builtCorpus) usable(g *genpipe.Generated) bool {
 	id := g.Schema.ID + "/" + g.Variant.Name()
-	if !g.Variant.FM || g.GenError != "" || !bc.compiled[id] {
-		return false
+	if !g.Variant.FM || g.GenError != "" || !bc.compiled[id] || len(g.Schema.Messages) == 0 {
+		return false // (a schema without messages only matters to C16)
 	}
 	// a response that names one output file twice (open finding B15) leaves a message type without
 	// methods: reported by C16, unusable here
